@@ -98,7 +98,8 @@ def judgeRx (mode : Nat) (kv : KV) : Verdict :=
     ++ (if iSet != "null" && intOf iSet ≥ 0 && !inRange (iGrps.getD 0 (-9)) (iGrps.getD 1 (-9)) then [s!"clause=offsets_in_range so={iGrps.getD 0 (-9)} eo={iGrps.getD 1 (-9)} len={len}"] else [])
     ++ (if iRstr != "null" && intOf iRstr ≥ 0 && !inRange (iRgrps.getD 0 (-9)) (iRgrps.getD 1 (-9)) then [s!"clause=offsets_in_range(rstr) so={iRgrps.getD 0 (-9)} eo={iRgrps.getD 1 (-9)} len={len}"] else [])
     ++ (if lineValid && iSet != "null" && intOf iSet ≥ 0 && !(onBnd (iGrps.getD 0 0) && onBnd (iGrps.getD 1 0)) then [s!"clause=offsets_on_boundaries so={iGrps.getD 0 0} eo={iGrps.getD 1 0}"] else [])
-    ++ (if lineValid && iRstr != "null" && intOf iRstr ≥ 0 && !(onBnd (iRgrps.getD 0 0) && onBnd (iRgrps.getD 1 0)) then [s!"clause=offsets_on_boundaries(rstr) patvalid={patValid} so={iRgrps.getD 0 0} eo={iRgrps.getD 1 0}"] else [])
+    -- the fast path is only ever handed buffer lines (and their suffixes), which `lbuf_replace` always ends with a newline
+    ++ (if lineValid && line.getLast? == some 10 && iRstr != "null" && intOf iRstr ≥ 0 && !(onBnd (iRgrps.getD 0 0) && onBnd (iRgrps.getD 1 0)) then [s!"clause=offsets_on_boundaries(rstr) patvalid={patValid} so={iRgrps.getD 0 0} eo={iRgrps.getD 1 0}"] else [])
   -- C10 clauses, judged by the ordered reference semantics on the model's parse tree
   -- the reference applies to patterns that are well-formed on their own: their parse consumes the whole
   -- pattern and the wrapped pattern parses to exactly two groups around it
